@@ -120,6 +120,8 @@ pub struct Counters {
     pub tasks_spawned: u64,
     pub quiescences: u64,
     pub sweep_fired: u64,
+    /// value of `steps` when the latest fault (spurious return, harness coin that came up, noted environment event) was injected
+    pub last_fault_step: u64,
 }
 
 pub struct RunResult {
@@ -162,6 +164,7 @@ pub struct Kernel {
     pub statics: Vec<StaticEntry>,
     pub initial_max_threads: usize,
     pub spurious_cv_permille: u32,
+    pub faults_off: bool,
     pub spurious_park_permille: u32,
     spawn_observer: Option<Box<dyn FnMut(&str, usize)>>,
     pub event_seq: u64,
@@ -279,6 +282,7 @@ pub fn run<F: FnOnce() + 'static>(cfg: RunConfig, strategy: Box<dyn Strategy>, r
         statics: Vec::new(),
         initial_max_threads: cfg.initial_max_threads,
         spurious_cv_permille: cfg.spurious_cv_permille,
+        faults_off: false,
         spurious_park_permille: cfg.spurious_park_permille,
         spawn_observer: None,
         event_seq: 0,
@@ -457,7 +461,7 @@ impl Kernel {
     }
 
     fn chance(&mut self, kind: DKind, permille: u32) -> bool {
-        if permille == 0 {
+        if permille == 0 || self.faults_off {
             return false;
         }
         let decision = self.c.decisions;
@@ -618,10 +622,21 @@ pub fn spurious_cv() -> bool {
         let r = k.chance(DKind::SpuriousCv, p);
         if r {
             k.c.spurious_cv += 1;
+            k.c.last_fault_step = k.c.steps;
         }
         r
     })
     .unwrap_or(false)
+}
+
+/// Faults stop / resume: while off, no spurious return is injected and no harness coin comes up (and none is drawn).
+pub fn faults_off(off: bool) {
+    with(|k| k.faults_off = off);
+}
+
+/// The harness has just injected an event of its own (a wake-up nobody asked for, a future waking itself).
+pub fn note_fault() {
+    with(|k| k.c.last_fault_step = k.c.steps);
 }
 
 /// Harness-level coin flip, recorded in the schedule like every other decision.
@@ -630,6 +645,7 @@ pub fn coin(permille: u32) -> bool {
         let r = k.chance(DKind::Harness, permille);
         if r {
             k.c.harness_coins += 1;
+            k.c.last_fault_step = k.c.steps;
         }
         r
     })
@@ -651,6 +667,7 @@ pub fn park() {
     let p = k.spurious_park_permille;
     if k.chance(DKind::SpuriousPark, p) {
         k.c.spurious_park += 1;
+        k.c.last_fault_step = k.c.steps;
         return;
     }
     block(Wait::Park);
